@@ -676,9 +676,17 @@ impl Game {
     }
 
     pub fn update_phase(&mut self) {
-        if self.is_endgame() {
+        if self.phase != GamePhase::Endgame && self.is_endgame() {
             self.piece_scores[PieceType::King as usize].set(&scores::KING_SCORES_END);
             self.phase = GamePhase::Endgame;
+
+            // The kings' cached contributions were computed with the middlegame table,
+            // re-score them so that `score` and `past_scores` match the table now in use
+            for player in [Player::White, Player::Black] {
+                let position = self.get_king_position(player);
+                let place = self.get_position(position);
+                self.set_position(position, place);
+            }
         }
     }
 
